@@ -566,19 +566,32 @@ class Runner:
                 except OSError:
                     pass
                 continue
-            cur, frames = None, {}
+            cur, frames, raw = None, {}, {}
             for l in r.stdout.splitlines():
                 m = re.match(r"Thread (\d+) ", l)
                 if m:
                     cur = int(m.group(1))
                     frames[cur] = []
+                    raw[cur] = []
                     continue
+                # unfiltered: function (and file) of every frame, so that a
+                # thread spinning in libmpi / the Galois runtime / the harness
+                # is visible too
+                mr = re.match(r"#\d+\s+(?:0x[0-9a-f]+ in )?(\S.*?) \(", l)
+                if mr and cur is not None and len(raw[cur]) < 9:
+                    fl = re.search(r" at (\S+)$| from (\S+)$", l)
+                    loc = (fl.group(1) or fl.group(2)) if fl else ""
+                    raw[cur].append("%s@%s" % (short_fn(mr.group(1)),
+                                               os.path.basename(loc)))
                 m = re.match(r"#\d+\s+(?:0x[0-9a-f]+ in )?(.*?) \(.*\) at "
                              r"(/\S+)", l)
                 mm = COMPONENT_RE.search(m.group(2)) if m else None
                 if mm and cur is not None:
                     frames[cur].append("%s at %s" % (
                         short_fn(m.group(1)), m.group(2)[mm.start() + 1:]))
+            if 1 in raw and raw[1]:
+                parts.append("pid %d compute thread, all frames: %s" % (
+                    pid, " <- ".join(raw[1])))
             for th in sorted(frames):
                 if frames[th]:
                     parts.append("pid %d thread %d: %s" % (
